@@ -42,7 +42,7 @@ SignCfg == [part : {"B"}, signer : Methods, kid_override : BOOLEAN, attach_jwk :
             typ : BOOLEAN, cty : BOOLEAN, url : BOOLEAN, nonce : BOOLEAN, custom : {"none", "x-custom", "collides"}, detached : BOOLEAN,
             payload : {"ascii", "dot", "nonutf8"}]
 Attempts == [method_id : {"none", "signer", "other"}, nonce : {"same", "different", "none"},
-             scope : {"none", "vm", "authentication", "assertionMethod"}]
+             scope : {"none", "vm", "authentication", "assertionMethod", "unused_rel"}]   \* unused_rel: a relationship holding no method
 
 \* create_jws encodes compactly with the Default charset rule
 \* a custom header parameter named like a registered one ("kid") cannot be honoured: the header would carry the
